@@ -151,7 +151,7 @@ var RuleFloors = map[string]RuleFloor{
 	"SCRAP":     {13, []string{"C11", "C07", "C09"}},
 	"SORTABLE":  {14, []string{"C19", "C02"}},
 	"SORTED":    {1, []string{"C17"}},
-	"TAGGED":    {36, []string{"C18"}},
+	"TAGGED":    {30, []string{"C18"}},
 	"TENANT":    {22, []string{"C16"}},
 	"TRANSFER":  {8, []string{"C14"}},
 	"TXSTATE":   {12, []string{"C07", "C11"}},
